@@ -185,6 +185,10 @@ def gen_tls_conn(R, cid, cfg, used, pair=None, **epkw):
         left -= g
     conn["fl"] = fl
     conn["merge_first"] = shapes and A.chance(30)
+    if shapes and A.chance(25) and recs:
+        side = "s" if ver == T.TLS13 else "c"
+        if recs[0]["d"] == side and not conn.get("resume"):
+            conn["early_data_side"] = side
     if ver == T.TLS13 and n >= 0 and A.chance(cfg.get("ticket_pct", 50)):
         tk = {}
         for _ in range(A.range(1, 2)):
